@@ -246,6 +246,9 @@ TEMPLATES = {
     "utf8": _frame(1, "é€".encode()),
     "ping-pong": _frame(9, b"12") + _frame(10, b"") + _frame(1, b""),
     "empty-first-frag": _frame(1, b"", fin=False) + _frame(1, b"x") + _frame(0, b"y"),
+    # a text message whose fragments split multi-byte code points (valid only as a whole)
+    "frag-utf8": _frame(1, b"\xc3", fin=False) + _frame(0, b"\xa9\xe2\x82", fin=False) + _frame(0, b"\xac"),
+    "frag-utf8-bad": _frame(1, b"\xc3", fin=False) + _frame(0, b"\x28"),
 }
 # RSV1 (0x40) set on the first frame: per-message deflate negotiated (compress=True)
 COMPRESSED_TEMPLATES = {
